@@ -177,7 +177,10 @@ PROPS = {
                 "tabs, relative names and @ under $ORIGIN, owner inheritance, TTL omitted after a stated TTL or under $TTL, class omitted, class/TTL order, "
                 "lower-case keywords, CRLF, missing final newline, $ORIGIN changes) all of which must read as exactly the logical record sequence, or (b) one "
                 "hostile byte string (random, token soup, 60 hand-made nasty snippets alone and glued, very long tokens, mutated valid files) read with and "
-                "without origin and through zonetree::parsed::Zonefile under panic capture, a CPU watchdog, an entry-count cap and the error-has-position check; "
+                "without origin and through zonetree::parsed::Zonefile under panic capture, a CPU watchdog, an entry-count cap and the error-has-position check, or (c) one record whose variable-length field sits on, "
+                "just below or just above the limit of its type (character strings of TXT / HINFO / NAPTR, NSEC3 and NSEC3PARAM salts, the NSEC3 next hashed owner, CAA tags: 255 octets; "
+                "RFC 3597 generic data and the whole of a TXT record: 65535) in eight spellings (plain, quoted, with blanks, one or all octets escaped): within the limit the record reads "
+                "back with exactly those octets, above it the reader refuses, and whatever it returns composes without a panic to the length it advertises; "
                 "distinct = (knob vector, record count) resp. (outcome class, error class)",
         "assumptions": ["omitted TTL means $TTL if one was given, else the last explicitly stated TTL (RFC 2308 4 / RFC 1035 5.1); the renderer never omits a TTL before one was stated",
                         "after an error the reader is not asked for further entries (documented)"],
